@@ -4,6 +4,9 @@ import json, os, random, socket, struct, threading, time
 import vlib, bb, scen
 
 
+UDP_IDLE_S = 3
+
+
 def parse_reply_bytes(proto, c, rep):
     """wait for end of stream and judge well-formedness of everything the client received as reply"""
     c.recv_until_eof(timeout=2.5)
@@ -68,6 +71,9 @@ def c06_scenarios(topo, origin, blocked_origin, fakes=None):
                 out.append(("upstream-scripted-ok", proto, up, lambda p=proto, u=up: via(fakes[u], {}, p, u), "ok", False))
     P5 = lambda up: topo.ports[("socks5", up)]
     out.append(("udp-to-tcp-only", "socks5", "lb", lambda: bb.socks5_connect(P5("lb"), ("ipv4", "0.0.0.0", 0), cmd=3), "fail", True))
+    # a UDP association keeps its control connection until it ends (here: by the udp idle timeout): nothing follows the success reply on it
+    for up in ("direct", "upsocks5"):
+        out.append(("udp-associate-idle", "socks5", up, lambda up=up: bb.socks5_connect(P5(up), ("ipv4", "0.0.0.0", 0), cmd=3), "ok", False))
     out.append(("bind", "socks5", "direct", lambda: bb.socks5_connect(P5("direct"), T, cmd=2), "fail", True))
     out.append(("bind", "socks4", "direct", lambda: bb.socks4_connect(topo.ports[("socks4", "direct")], T, cmd=2), "fail", True))
     out.append(("unknown-cmd", "socks5", "direct", lambda: bb.socks5_connect(P5("direct"), T, cmd=9), "fail", True))
@@ -143,7 +149,7 @@ def run_c06(pid, tier, t0):
         origin = bb.TcpOrigin()
         blocked = bb.TcpOrigin()
         fakes = {"fakehttp": bb.FakeUpstream("http"), "fakesocks": bb.FakeUpstream("socks5"), "fakesocks4": bb.FakeUpstream("socks4")}
-        topo = scen.Topology(wd, "c06_" + mode, splice=splice, special=True, p2_deny_port=blocked.port, history=1000,
+        topo = scen.Topology(wd, "c06_" + mode, splice=splice, special=True, p2_deny_port=blocked.port, history=1000, udp=UDP_IDLE_S,
                              fake={"fakehttp": ("http", fakes["fakehttp"].port), "fakesocks": ("socks", fakes["fakesocks"].port),
                                    "fakesocks4": ("socks4", fakes["fakesocks4"].port)}).start()
         obs = []
@@ -156,7 +162,26 @@ def run_c06(pid, tier, t0):
             sport = c.s.getsockname()[1]
             est = bb.established(rep)
             upstream_seen = False
-            if est:
+            if est and name == "udp-associate-idle":
+                # the association is real: one datagram through it reaches a UDP origin
+                uo = bb.UdpOrigin()
+                us = socket.socket(socket.AF_INET, socket.SOCK_DGRAM)
+                try:
+                    for _ in range(3):
+                        us.sendto(b"\x00\x00\x00\x01" + socket.inet_aton("127.0.0.1") + struct.pack(">H", uo.port) + b"hello", ("127.0.0.1", rep["bind_port"]))
+                        time.sleep(0.3)
+                        if uo.got:
+                            break
+                    upstream_seen = bool(uo.got)
+                finally:
+                    us.close()
+                    uo.close()
+                c.recv_until_eof(timeout=UDP_IDLE_S + 5.0)
+                after = bytes(c.rx)
+                r = {"kind": "ok", "wellformed": after == b"", "closed": bool(c.eof or c.err is not None), "after_success_reply": after[:40].hex()}
+                if after:
+                    v.report("life/reply-after-established/%s/%s" % (proto, up), r, {"scenario": "%s/%s/%s" % (name, proto, up)})
+            elif est:
                 o = (fakes[up] if up in fakes else origin).accept(timeout=2.0)
                 upstream_seen = o is not None
                 # finish the tunnel gracefully
@@ -203,7 +228,8 @@ def run_c06(pid, tier, t0):
         "samples": samples[:2], "evaluations": total, "distinct_nontrivial": total,
         "rule": "Life.tla checked for 3 connections x every outcome x history size 0/1/2; on real processes every listener protocol x outcome "
                 "class (reachable, refused, unresolvable, upstream proxy says no, deny, no rule, UDP to a TCP-only upstream, BIND, unknown "
-                "command, wrong password, unknown user, no acceptable method, SOCKS4 id, non-CONNECT method, bad Proxy-Protocol) x upstream "
+                "command, wrong password, unknown user, no acceptable method, SOCKS4 id, non-CONNECT method, bad Proxy-Protocol, through a balancer, "
+                "a UDP association watched until its idle timeout ends it) x upstream "
                 "kind; the client's bytes until end of stream are parsed strictly; the proxy's lifecycle events + these observations are one "
                 "TraceLife trace per io mode",
         "scenarios": total, "exhaustive": False, "checker_cmd": mcs[0].cmd,
